@@ -466,7 +466,7 @@ theorem sem_skipLast (count : Int) (raw : List (Notif α)) :
 
 /-! ### element_at(_or_default) -/
 theorem emitsSeq_elementAt (index : Nat) (dflt : Option α) (i : Nat) (xs : List α) (e : End) :
-    cut ((elementAtOrDefaultOp index dflt).emitsSeq i xs e) = refElementAt i dflt xs e := by
+    cut ((elementAtOrDefaultOp index dflt).emitsSeq (i : Int) xs e) = refElementAt i dflt xs e := by
   induction xs generalizing i with
   | nil =>
     cases e <;> cases dflt <;>
@@ -476,7 +476,11 @@ theorem emitsSeq_elementAt (index : Nat) (dflt : Option α) (i : Nat) (xs : List
     | zero => simp [Op.emitsSeq, elementAtOrDefaultOp, refElementAt, emit]
     | succ k =>
       have := ih k
-      simp [Op.emitsSeq, elementAtOrDefaultOp, refElementAt, emit] at this ⊢; exact this
+      have hpos : ((k + 1 : Nat) : Int) > 0 := by omega
+      have hsub : ((k + 1 : Nat) : Int) - 1 = (k : Int) := by omega
+      simp only [Op.emitsSeq, elementAtOrDefaultOp, emit, hpos, if_true, hsub, List.nil_append,
+        Bool.false_eq_true, if_false] at this ⊢
+      simpa [refElementAt] using this
 
 theorem sem_elementAt (index : Nat) (dflt : Option α) (raw : List (Notif α)) :
     (elementAtOrDefaultOp index dflt).sem raw = refElementAt index dflt (elems raw) (fin raw) := by
@@ -484,7 +488,7 @@ theorem sem_elementAt (index : Nat) (dflt : Option α) (raw : List (Notif α)) :
 
 /-! ### find / find_index -/
 theorem emitsSeq_find (p : α → Nat → Except Err Bool) (yes : α → Nat → β) (no : β) (i : Nat) (xs : List α) (e : End) :
-    cut ((findValueOp p yes no).emitsSeq i xs e) = refFind p yes no i xs e := by
+    cut ((findValueOp p yes no).emitsSeq (i, false) xs e) = refFind p yes no i xs e := by
   induction xs generalizing i with
   | nil => cases e <;> simp [Op.emitsSeq, findValueOp, refFind, passErr, emit, End.toNotifs]
   | cons x xs ih =>
